@@ -6,6 +6,8 @@
 //   run  <kind> <param> <sched> <unit> <unit> ...   send the units through a sender/receiver pair
 //   wire <kind> <param> <unit> ...                  all bytes the sender writes for the units (whole-buffer transport)
 //   feed <kind> <param> <sched> x<hex>              ARBITRARY bytes pushed into a receiver (hostile input)
+//   share <enc> <unit A> <unit B> <unit S>          S tagged for multi-gateway reuse, sent after A on link 1 and after B on link 2
+//   bigws <dir> <flattened size>                    one big Message through a WebSocket pair
 // kinds / param:  bin <enc 0..9> | tmpl <enc>/<cacheBytes> | text <eol 0=CRLF 1=LF 2=CR> | raw <minChunk> | slip 0
 //                 | ws <dir 0=server->client 1=client->server>/<handshake 0=none 1=whole 2=halves 4=byte by byte> or ws <dir>/3/<cut after byte>
 //                 | m2c 0 | c2m 0 | u2c 0 | c2u 0
@@ -581,9 +583,42 @@ struct GwEngine : public Engine
       return res;
    }
 
+   // bigws <dir> <n>: ONE Message of flattened size <n> (built here: the op line stays short) through a WebSocket pair without
+   // handshake, whole-buffer transport.  Result `ok end=<receiver error>/<drained> n=<delivered>`
+   std::string doBigWs(const std::vector<std::string> & t)
+   {
+      uint64_t dir, n;
+      if ((t.size() != 3)||(!toU64(t[1], dir))||(dir > 1)||(!toU64(t[2], n))||(n < 40)||(n > 64*1024*1024)) return "bad-op";
+      Link * L = makeLink("ws", u64s(dir) + "/0");
+      if (L == NULL) return "bad-op";
+      MessageRef m = GetMessageFromPool(7);
+      {
+         ByteBufferRef pad = GetByteBufferFromPool((uint32) (n - (12 + 4+4+4+4 + 4+4)));   // header, "pad" field overhead, item count + item length
+         if (pad() == NULL) {delete L; return "bad-op";}
+         uint8 * b = pad()->GetBuffer(); for (uint32 i=0; i<pad()->GetNumBytes(); i++) b[i] = (uint8) (i*31 + (i>>8));
+         (void) m()->AddFlat("pad", pad);
+      }
+      std::string sent(m()->FlattenedSize(), '\0'); m()->FlattenToBytes((uint8 *) &sent[0]);
+      (void) L->txg()->AddOutgoingMessage(m);
+      std::vector<uint32_t> none;
+      for (int round=0; round<64; round++)
+      {
+         L->txc.setGrants(none, true); L->rxc.setGrants(none, true);
+         const int64_t o = L->tx->out(NOLIM), r = L->rx->in(NOLIM);
+         if ((L->rx->err())||((o <= 0)&&(r <= 0))) break;
+      }
+      const bool drained = (!L->tx->hasOut())&&(L->fwd.q.empty());
+      const std::string res = "ok end=" + u64s(L->rx->err() ? 1 : 0) + "/" + u64s(drained ? 1 : 0) + " n=" + u64s(L->deliv.units.size());
+      if (L->rx->err()) oracleFail("WebSocket receiver reports an error on a " + u64s(sent.size()) + "-byte Message produced by the matching sender");
+      else if ((L->deliv.units.size() != 1)||(L->deliv.units[0] != sent)) oracleFail("a " + u64s(sent.size()) + "-byte Message did not arrive intact over the WebSocket pair");
+      delete L;
+      return res;
+   }
+
    virtual std::string step(const std::vector<std::string> & t)
    {
       if (t[0] == "share") return doShare(t);
+      if (t[0] == "bigws") return doBigWs(t);
       if (t[0] == "run")  return doRun(t, false);
       if (t[0] == "wire") return doRun(t, true);
       if (t[0] == "feed") return doFeed(t);
